@@ -39,7 +39,7 @@ var (
 	ctlHosts     = []string{"", "a.com", "b.com", "x.a.com", "y.x.a.com", "*.a.com", "*.x.a.com", "localhost", "*.com", "a.com:8080"}
 	ctlPrefixes  = []string{"/", "/api", "/apiary", "/api/v1", "/a", "/a/b", "api/", "//x//", "/api/", "", "/ab"}
 	ctlReqHosts  = []string{"a.com", "a.com:8080", "a.com:", "b.com", "b.com:443", "x.a.com", "z.a.com", "y.x.a.com", "q.y.x.a.com", "z.x.a.com:80", "localhost", "localhost:3000", "com", "foo.com", ".a.com", "A.COM", "a.com.", "[::1]:80", "[::1]", "a:b:c", "unknown.org", "", "*.a.com", ":80"}
-	ctlReqPaths  = []string{"/", "/api", "/api/", "/apiary", "/api/v1", "/api/v1/x", "/api/v2", "/a", "/a/b", "/a/b/c", "/ab", "/ap", "/x", "/x/y", "/api//x", "//api", "/apix/../api", "/up", "/a/", "/API"}
+	ctlReqPaths  = []string{"/", "/api", "/api/", "/apiary", "/api/v1", "/api/v1/x", "/api/v2", "/a", "/a/b", "/a/b/c", "/ab", "/ap", "/x", "/x/y", "/api//x", "//api", "/apix/../api", "/up", "/a/", "/API", ""}
 	ctlMsgs      = []string{"", "back soon", "down for <b>maintenance</b>", "a & b", "\"quoted\" 'single'", "{{ .Message }} {{if}}", "<script>alert(1)</script>", "1+1=2 &amp; &lt;", "é ü ✓", "</p></article>", "]</custom503>"}
 	ctlCookieVal = []string{"", "alice", "bob", "1", "22", "user-63237025", "zzz", "0000"}
 )
@@ -195,12 +195,25 @@ func genControl(rng *mrand.Rand, n int, tier string, w *bufio.Writer) {
 					fmt.Fprintf(w, "cert sni=%s\n", hexB([]byte(sni)))
 				default:
 					uri := path
-					if uri == "" || uri[0] != '/' {
+					abs := ""
+					if au, aerr := url.ParseRequestURI("http://" + strings.TrimSuffix(host, ":")); uri == "" && (aerr != nil || au.Path != "" || host == "") {
+						uri = "/"
+					}
+					if uri == "" {
+						// an absolute-form request target without a path (`GET http://host HTTP/1.1`): URL.Path is
+						// empty and URL.RequestURI() is "/"
+						abs = " abs=" + hexB([]byte(strings.TrimSuffix(host, ":")))
+						uri = "/"
+					} else if uri[0] != '/' {
 						uri = "/" + uri
 					}
 					u, err := url.ParseRequestURI(uri)
 					if err != nil {
 						continue
+					}
+					upath := u.Path
+					if abs != "" {
+						upath = ""
 					}
 					if chance(rng, 30) {
 						uri += "?q=1&r=" + strconv.Itoa(j)
@@ -213,8 +226,8 @@ func genControl(rng *mrand.Rand, n int, tier string, w *bufio.Writer) {
 					if chance(rng, 15) {
 						method = "POST"
 					}
-					fmt.Fprintf(w, "req method=%s host=%s path=%s uri=%s tls=%s cookies=%s\n", hexB([]byte(method)), hexB([]byte(host)),
-						hexB([]byte(u.Path)), hexB([]byte(uri)), b2s(chance(rng, 30)), encList(cookies))
+					fmt.Fprintf(w, "req method=%s host=%s path=%s uri=%s tls=%s cookies=%s%s\n", hexB([]byte(method)), hexB([]byte(host)),
+						hexB([]byte(upath)), hexB([]byte(uri)), b2s(chance(rng, 30)), encList(cookies), abs)
 				}
 			}
 		}
@@ -598,7 +611,12 @@ func ifEmpty(l []string) string {
 
 func (r *ctlRun) request(kv map[string]string) string {
 	r.rid++
-	u, err := url.ParseRequestURI(string(unhexB(kv["uri"])))
+	target := string(unhexB(kv["uri"]))
+	if a, ok := kv["abs"]; ok {
+		// absolute-form request target without a path; a query, if any, follows the authority
+		target = "http://" + string(unhexB(a)) + strings.TrimPrefix(target, "/")
+	}
+	u, err := url.ParseRequestURI(target)
 	if err != nil {
 		return "bad-uri"
 	}
